@@ -1,6 +1,7 @@
 package main
 
 import (
+	"go/ast"
 	"go/token"
 	"go/types"
 	"strings"
@@ -541,6 +542,97 @@ func assertGuarded(ta *ssa.TypeAssert) bool {
 }
 
 func c16Extra(c *Ctx) {
+	c.rule("C16-R9", "WCS/blocking: the hub loop (Hub.Run) is the only receiver of the hub's request channels, and it runs every connect / disconnect / message handler itself. So the API a handler is handed - the exported methods of Connection, MessageContext and VMHandler, with what they call inside the package - must not perform a blocking send on one of those channels: on the loop's goroutine the send waits for a receive that only the sender could make. An unbuffered channel deadlocks at the first call (ws.close() in a handler freezes the hub for everybody), a buffered one when the handler fills it. Sends in a goroutine of their own, in a select with another ready-able case, and the pumps (functions the package starts with `go`) are not on the loop")
+	{
+		wsPath := modPath + "/" + wsPkg
+		// channels of Hub that Run receives from
+		loopChans := map[string]bool{}
+		if run := c.mustFn("C16-R9", wsPkg, "Hub.Run"); run != nil {
+			eachInstr(run, func(_ *ssa.BasicBlock, _ int, ins ssa.Instruction) {
+				if sel, ok := ins.(*ssa.Select); ok {
+					for _, st := range sel.States {
+						if st.Dir == types.RecvOnly {
+							if u, ok := st.Chan.(*ssa.UnOp); ok {
+								if nt, f, ok := fieldOf(u.X); ok && nt != nil && nt.Obj().Name() == "Hub" {
+									loopChans[f] = true
+								}
+							}
+						}
+					}
+				}
+			})
+		}
+		// functions the package starts as goroutines (pumps, the loop itself)
+		pump := map[*ssa.Function]bool{}
+		for _, fn := range c.srcFuncs(wsPkg) {
+			eachInstr(fn, func(_ *ssa.BasicBlock, _ int, ins ssa.Instruction) {
+				if g, ok := ins.(*ssa.Go); ok {
+					if sf := g.Call.StaticCallee(); sf != nil {
+						pump[sf] = true
+					}
+				}
+			})
+		}
+		blockingSendOn := func(fn *ssa.Function) (string, token.Pos) {
+			name, pos := "", token.NoPos
+			eachInstr(fn, func(_ *ssa.BasicBlock, _ int, ins ssa.Instruction) {
+				snd, ok := ins.(*ssa.Send)
+				if !ok {
+					return
+				}
+				if u, ok := snd.Chan.(*ssa.UnOp); ok {
+					if nt, f, ok := fieldOf(u.X); ok && nt != nil && nt.Obj().Name() == "Hub" && loopChans[f] {
+						name, pos = f, snd.Pos()
+					}
+				}
+			})
+			return name, pos
+		}
+		n := 0
+		for _, fn := range c.srcFuncs(wsPkg) {
+			if fn.Parent() != nil || fn.Signature.Recv() == nil || !ast.IsExported(fn.Name()) || pump[fn] {
+				continue
+			}
+			rn := namedOf(derefPtr(fn.Signature.Recv().Type()))
+			if rn == nil || rn.Obj().Pkg() == nil || rn.Obj().Pkg().Path() != wsPath {
+				continue
+			}
+			switch rn.Obj().Name() {
+			case "Connection", "MessageContext", "VMHandler":
+			default:
+				continue
+			}
+			// the method and what it calls statically inside the package (not goroutine bodies: closures started with go
+			// are separate functions and are not followed)
+			seen := map[*ssa.Function]bool{}
+			var where string
+			var at token.Pos
+			var visit func(f *ssa.Function, d int)
+			visit = func(f *ssa.Function, d int) {
+				if f == nil || seen[f] || d > 4 || f.Pkg == nil || f.Pkg.Pkg.Path() != wsPath || pump[f] {
+					return
+				}
+				seen[f] = true
+				if ch, p := blockingSendOn(f); ch != "" && where == "" {
+					where, at = ch+" in "+fnKey(f), p
+				}
+				eachInstr(f, func(_ *ssa.BasicBlock, _ int, ins ssa.Instruction) {
+					if cl, ok := ins.(*ssa.Call); ok {
+						visit(staticFn(cl), d+1)
+					}
+				})
+			}
+			visit(fn, 0)
+			n++
+			if at == token.NoPos {
+				at = fn.Pos()
+			}
+			c.ob("C16-R9", fnKey(fn)+"#does-not-wait-for-the-hub-loop", at, where == "", "a method that handlers call performs a blocking send on Hub."+where+", a channel only the hub loop receives from, and handlers run on the hub loop: the loop waits for itself - the hub stops registering, unregistering and delivering for every client, and Shutdown hangs")
+		}
+		c.Sites["C16-R9#handler-api-methods"] = n
+		c.floor("C16-R9", 10)
+	}
+
 	c.rule("C16-R8", "ATOM/ORD: (a) a room is created in the manager's table only after looking the same name up under the same exclusive hold of RoomManager.mu (check and insert in one critical section: two first joins cannot each create a Room and lose one's members); (b) a connection is handed to the hub's register channel synchronously, before its read pump is started, so its unregister can never overtake its register and leave a dead connection registered for good; (c) Room objects are not unlinked from the manager's table by running code while a join is lookup-then-add in two critical sections (the unlinking functions have no non-test caller, or the join holds RoomManager.mu across both steps)")
 	// (a)
 	nIns := 0
